@@ -70,7 +70,12 @@ def gen_frame(r, rich=False, nhosts=4, trunc=False):
     if r.chance(0.15):
       fs["ipopts"] = r.pick(["01010101", "0101010101010101"])
     if k == "tcp" and r.chance(0.2):
-      fs["tcpopts"] = r.pick(["020405b4", "01010101"])
+      # (the last two end in a two-byte option flush with the header's end:
+      # SACK-permitted, as in a Windows SYN)
+      fs["tcpopts"] = r.pick(["020405b4", "01010101", "01010402",
+                              "020405b401030307", "020405b401010402"])
+      if r.chance(0.4):
+        fs["paylen"] = 0        # a bare SYN / ACK
     if trunc and k in ("udp", "tcp", "icmp") and not fs.get("frag") \
         and r.chance(0.25):
       fs["l4cut"] = r.pick({"tcp": [0, 4, 12, 19], "udp": [0, 4, 7],
